@@ -14,12 +14,13 @@ func init() {
 			ID: "C03", Title: "Best-path tie-breaking follows RFC 4271 9.1.2.2 and RFC 4456 section 9", Level: "proof",
 			Technique:   "comparator normal-form extraction on the typed AST; the extracted (key, preferred direction) list is compared with the RFC table",
 			DesignRef:   "DESIGN.md §3 R-CMP, §4 C03",
-			Decided:     "BGPPath.Select is in lexicographic normal form (C02) and its extracted list of (key, preferred direction) equals, in order: LOCAL_PREF higher · AS_PATH length lower · ORIGIN lower · MED lower (unconditionally, i.e. across neighbour ASes) · eBGP over iBGP · identifier lower where identifier = ORIGINATOR_ID if non-zero else BGP identifier · CLUSTER_LIST length lower with an absent list counting as length 0 · peer (source) address lower; any further steps only refine ties.  With the normal form the extracted list IS the decision procedure for all inputs.",
+			Decided:     "BGPPath.Select is in lexicographic normal form (C02) and its extracted list of (key, preferred direction) equals, in order: LOCAL_PREF higher · AS_PATH length lower · ORIGIN lower · MED lower (unconditionally, i.e. across neighbour ASes) · eBGP over iBGP · identifier lower where identifier = ORIGINATOR_ID if non-zero else BGP identifier · CLUSTER_LIST length lower with an absent list counting as length 0 · peer (source) address lower; any further steps only refine ties.  With the normal form the extracted list IS the decision procedure for all inputs.  The Loc-RIB applies it after every change: in LocRIB.AddPath/RemovePath/ReplacePath every path from the table mutation to propagateChanges passes Route.PathSelection, whose less-function is Select(i,j)==1.",
 			NotDecided:  "nothing for the stated clause beyond the trusted base; interior cost (step e) is not implemented by bio-rd and not part of the statement.",
 			TrustedBase: append([]string{"theorem: a comparator in lexicographic normal form computes the lexicographic order of its key list (engine/core/cmp.go)", "the spec table in engine/props/c03.go transcribed from the property statement"}, stdTrusted...),
 		},
 		Run: runC03,
 		Controls: []Control{
+			{Name: "replace-reranks-only-when-best-touched", File: "routingtable/locRIB/loc_rib.go", Old: "\tr.PathSelection()\n\ta.propagateChanges(oldRoute, r)\n}\n", New: "\tif oldRoute.BestPath().Equal(oldPath) {\n\t\tr.PathSelection()\n\t}\n\ta.propagateChanges(oldRoute, r)\n}\n", Expect: "loc-rib-reranks-after-every-change"},
 			{Name: "med-direction-flipped", File: "route/bgp_path.go", Old: "\tif c.BGPPathA.MED > b.BGPPathA.MED {\n\t\treturn 1\n\t}\n\n\tif c.BGPPathA.MED < b.BGPPathA.MED {\n\t\treturn -1\n\t}", New: "\tif c.BGPPathA.MED > b.BGPPathA.MED {\n\t\treturn -1\n\t}\n\n\tif c.BGPPathA.MED < b.BGPPathA.MED {\n\t\treturn 1\n\t}", Expect: "rfc-decision-step"},
 			{Name: "origin-and-med-swapped", File: "route/bgp_path.go", Old: "c.BGPPathA.Origin > b.BGPPathA.Origin {\n\t\treturn 1\n\t}\n\n\tif c.BGPPathA.Origin < b.BGPPathA.Origin {", New: "c.BGPPathA.LocalPref > b.BGPPathA.LocalPref {\n\t\treturn 1\n\t}\n\n\tif c.BGPPathA.LocalPref < b.BGPPathA.LocalPref {", Expect: "rfc-decision-step"},
 			{Name: "received-path-without-identifier", File: "protocols/bgp/server/fsm_address_family.go", Old: "\t\t\t\tBGPIdentifier: f.fsm.neighborID,\n", New: "", Expect: "decision-key-populated-on-receive"},
@@ -35,6 +36,8 @@ type rfcStep struct {
 }
 
 func runC03(c *core.Ctx) {
+	// the order Select defines is the order the Loc-RIB holds: every table mutation is re-ranked before anyone is told
+	selectionBeforePropagation(c, "loc-rib-reranks-after-every-change", 3)
 	cs := analyseComparators(c)
 	const k = "route.(*BGPPath).Select"
 	form := cs.forms[k]
